@@ -224,6 +224,10 @@ def _range_conj(facts, lit):
             if a_[0] == "adt" and len(a_[2]) == 1 and b_[0] not in ("adt", "enum") and a_[1].rsplit("::", 1)[0] in ("core::option::Option", "core::result::Result"):
                 adt_, var_ = a_[1].rsplit("::", 1)
                 return (lit, ("in", b_, frozenset([var_]), adt_), norm_lit(facts, mk_bin("Eq", a_[2][0][1], mk_vfield(b_, a_[1], 0)), True))
+        # `(a, b) == (p, q)` holding: componentwise equality
+        a_, b_ = lit[1][2], lit[1][3]
+        if a_[0] == "tuple" and b_[0] == "tuple" and len(a_[1]) == len(b_[1]) and len(a_[1]) > 1:
+            return (lit,) + tuple(norm_lit(facts, mk_bin("Eq", x, y), True) for x, y in zip(a_[1], b_[1]))
         # `S { a: x, b: y } == S { a: p, b: q }` (a derived PartialEq on a plain struct) holding: fieldwise equality
         a_, b_ = lit[1][2], lit[1][3]
         if a_[0] == "adt" and b_[0] == "adt" and a_[1] == b_[1] and len(a_[2]) == len(b_[2]) and len(a_[2]) > 1 and [x[0] for x in a_[2]] == [x[0] for x in b_[2]] \
